@@ -25,7 +25,7 @@ def cases(tier, seed):
     if tier != "quick":
         return u
     # quick: stratified sample + the whole (cheap) width sweep
-    return stratified_sample([c for c in u if not c["id"].startswith("ws:")], lambda c: c.get("stratum", ""), 240, seed) + [c for c in u if c["id"].startswith("ws:")]
+    return stratified_sample([c for c in u if not c["id"].startswith(("ws:", "qs:"))], lambda c: c.get("stratum", ""), 240, seed) + [c for c in u if c["id"].startswith(("ws:", "qs:"))]
 
 
 def run_case(case):
